@@ -226,7 +226,9 @@ func parseSig(s string) (name string, params, results []SVar, err error) {
 	s = strings.TrimSpace(s)
 	// name may itself contain parens: (*T).M  — find the parameter list start: first '(' after the name part
 	i := 0
-	if strings.HasPrefix(s, "(") {
+	if strings.HasPrefix(s, "param:(") {
+		i = strings.Index(s, ")") + 1
+	} else if strings.HasPrefix(s, "(") {
 		j := strings.Index(s, ")")
 		i = j + 1
 	}
